@@ -26,6 +26,10 @@ CLAIMED = {
     text="Decides the provenance of every address/port/protocol field written into a reply and who may write the per-frame ClientInfo: Ethernet source = configured MAC, destination = request source, EtherType constant = the dispatch value selecting its arm; IPv4/IPv6 source/destination mirrored (IPv6 source may be the solicited ND target, substituted only on the ICMPv6 arm), version constants, next-protocol constant = dispatch value of its arm; TCP/UDP ports read back from ClientInfo after the application layer ran, whose only writers are the parsing layer (value = the request getter) and the STUN change-port rewrite (+1 wrapping, under change_port, not loop-carried); each layer records its fields before handing over; exactly one transmit site, fed by reply(), once per received frame.",
     note="Byte offsets of pnet getters/setters are trusted (library).",
     technique="reaching-definition provenance tables on MIR + who-may-write sets + dominance of dispatch arms", ref="§4 C03"),
+ 'C02': dict(
+    text="Decides the gating structure on all paths: (R1) every lower-layer call and every reply in layer_2::reply lies behind the true edge of get_authorized_eth_addr(mac, self_ip_list).contains(request destination MAC); (R1b) that set is built from exactly broadcast, own MAC, 33:33:00:00:00:01 and per configured address 01:00:5e+low 23 bits / 33:33:ff+low 24 bits (array element provenance); (R2) the three dispatch switches handle exactly {0x0806,0x0800,0x86dd}, {1,6,17}, {58,6,17}, their default edges reach no handler and no reply, and each handler sits on its own arm; (R3) before any L4 handler and any reply the deny list is absent or tested negative on the request source; (R4) every address that becomes a reply source or an advertised ARP/ND address passed a membership test, decided by a path-sensitive simulation that remembers test outcomes on value-numbered expressions (so the ICMPv6 exemption is not blamed on TCP/UDP paths); (R5) ARP/ND target gates and the interprocedural summary for the ND target handed to L3.",
+    note="pnet getter semantics trusted. The contents of the configured sets are runtime values; only the tests applied to them are decided.",
+    technique="must-pass-through gates + path-sensitive property simulation with value-numbered predicates on MIR", ref="§4 C02"),
 }
 
 NOT_YET = {}
